@@ -451,7 +451,8 @@ def inline_single_callers(modules: dict, max_sites: int = 1, max_body: int = 12,
 def _inline_one(name, hm, hcls, h, cm, call, dry):
     if True:
         static = len(h.decorator_list) == 1 and isinstance(h.decorator_list[0], ast.Name) and h.decorator_list[0].id == "staticmethod"
-        if cm is not hm or (h.decorator_list and not static) or isinstance(h, ast.AsyncFunctionDef):
+        clsm = len(h.decorator_list) == 1 and isinstance(h.decorator_list[0], ast.Name) and h.decorator_list[0].id == "classmethod"
+        if cm is not hm or (h.decorator_list and not (static or clsm)) or isinstance(h, ast.AsyncFunctionDef):
             return None
         if any(isinstance(x, (ast.Yield, ast.YieldFrom, ast.Await, ast.Global, ast.Nonlocal)) for x in ast.walk(h)):
             return None
@@ -490,6 +491,15 @@ def _inline_one(name, hm, hcls, h, cm, call, dry):
         for k in call.keywords:
             if k.arg in ps and k.arg not in sub:
                 sub[k.arg] = k.value
+        if clsm and is_method:
+            # `cls` of a classmethod helper: the receiver's class
+            recv = call.func.value.id if isinstance(call.func, ast.Attribute) and isinstance(call.func.value, ast.Name) else None
+            first = h.args.args[0].arg
+            if recv == "self":
+                ps = [first] + ps
+                sub[first] = ast.Attribute(value=ast.Name(id="self", ctx=ast.Load()), attr="__class__", ctx=ast.Load())
+            elif recv != first:
+                return None
         for p_, d_ in zip(ps[len(ps) - len(a.defaults):], a.defaults):
             sub.setdefault(p_, d_)
         if set(sub) != set(ps):
